@@ -300,16 +300,17 @@ theorem save_pure (c : Codec) (k : Kind) (fs : FS) (t : Target) (ft : FType) (ov
         intro e; subst e; exact hk hkey
       exact get?_set_ne d versionKey key versionVal hne
 
-/-- an existing HDF5 path is not replaced without `overwrite`: the save is refused and the
-    file system is exactly as before -/
+/-- an existing HDF5 path is not replaced without `overwrite` — route 1, the path is a `str`:
+    the guard of `write_dict_hdf5` (generated leaf `guard`) refuses the save and the file system
+    is exactly as before, whatever the file holds -/
 theorem no_overwrite_guard (c : Codec) (k : Kind) (fs : FS) (t : Target) (o : Val) (old : Content)
-    (hp : t.isPath = true) (hex : FS.lookup fs t = some old) :
+    (hp : t.isPath = true) (hs : t.asStr = true) (hex : FS.lookup fs t = some old) :
     (save c k fs t .hdf5 false o).1 = fs ∧ (save c k fs t .hdf5 false o).2.1 ≠ none ∧
       (∀ d, toDict k o = .ok d → (save c k fs t .hdf5 false o).2.1 = some .fileExists) := by
   unfold save
   cases hd : toDict k o with
   | error e => simp
-  | ok d => simp [writeDict, writeDictWith, hex, hp]
+  | ok d => simp [writeDict, writeDictWith, hex, hp, hs, Target.isStr]
 
 /-- with `overwrite=True` the file afterwards holds exactly the new object — its content does
     not depend on what was there — and no other file is touched -/
@@ -359,12 +360,16 @@ theorem write_dispatch_table :
     writeBranch .dict = 4 ∧ writeBranch .none = 5 ∧ writeBranch .tuple = 6 ∧
     writeBranch .scalar = 7 := writeBranch_table
 
-/-- `_write_list`: both errors numpy / h5py raise for a list that is no array (TypeError for an
-    object array, ValueError for a ragged list) reach the per-element fall-back; a string array
+/-- `_write_list`: all three ways a list turns out to be no array reach the per-element fall-back —
+    h5py's TypeError for an object array (entries that are None), numpy's ValueError for a ragged
+    list, and an object-dtype array numpy builds *without raising* (entries that are equal-length
+    object arrays of strings: stored raw they would come back as bytes objects); a string array
     is encoded, any other array stored raw -/
-theorem list_fallback_table (u : Nat) :
-    Rsa.Gen.C16.listDispatch 1 0 u = 3 ∧ Rsa.Gen.C16.listDispatch 0 1 u = 3 ∧
-    Rsa.Gen.C16.listDispatch 0 0 1 = 1 ∧ Rsa.Gen.C16.listDispatch 0 0 0 = 2 := listDispatch_table u
+theorem list_fallback_table (o u : Nat) :
+    Rsa.Gen.C16.listDispatch 1 0 o u = 3 ∧ Rsa.Gen.C16.listDispatch 0 1 o u = 3 ∧
+    Rsa.Gen.C16.listDispatch 0 0 1 u = 3 ∧
+    Rsa.Gen.C16.listDispatch 0 0 0 1 = 1 ∧ Rsa.Gen.C16.listDispatch 0 0 0 0 = 2 :=
+  listDispatch_table o u
 
 /-- the writer as coded (generated dispatch) is the `encode` all theorems above speak about -/
 theorem encodeC_eq_encode (c : Codec) (d : Val) : encodeC c d = encode c d := encodeC_eq c d
@@ -420,11 +425,13 @@ theorem dict_to_list_spec :
 
 /-! ### a second save into an open handle that already holds something, without `overwrite` -/
 
-/-- HDF5: `File(handle, 'a')` re-opens the file and `_write_to_group` meets a member of the same
+/-- HDF5 (any target that is no `str`: an open handle, or a path handed over as `pathlib.Path` /
+    `os.PathLike` / `bytes`, which the guard lets pass):
+    `File(handle, 'a')` re-opens the file and `_write_to_group` meets a member of the same
     name (always the case when the file holds an object of the same kind: the first key of
     every kind's dictionary is a dataset / group): h5py refuses, the file is exactly what it
     was, every load returns what it returned before -/
-theorem second_save_refused (k : Kind) (fs : FS) (t : Target) (ht : t.isPath = false) (g : H5)
+theorem second_save_refused (k : Kind) (fs : FS) (t : Target) (ht : t.isStr = false) (g : H5)
     (hg : FS.lookup fs t = some (.h5 g)) (o : Val) (k0 : String) (v0 r : Val)
     (hd : toDict k o = .ok (.dcons k0 v0 r)) (it : H5) (hi : encodeItem .utf8 v0 = .ok it)
     (hna : it.isAttr = false) (hl : g.hasLink k0 = true) :
@@ -439,7 +446,7 @@ theorem second_save_refused (k : Kind) (fs : FS) (t : Target) (ht : t.isPath = f
 
 /-- … in particular two saves of objects of the same kind into a fresh handle: the second is
     refused and the handle still holds the first -/
-theorem save_twice_keeps_first (k : Kind) (fs : FS) (t : Target) (ht : t.isPath = false)
+theorem save_twice_keeps_first (k : Kind) (fs : FS) (t : Target) (ht : t.isStr = false)
     (hf : FS.lookup fs t = none) (o1 o2 : Val) (k0 : String) (v1 r1 v2 r2 : Val)
     (hd1 : toDict k o1 = .ok (.dcons k0 v1 r1)) (hd2 : toDict k o2 = .ok (.dcons k0 v2 r2))
     (hst : storable .utf8 (.dcons k0 v1 r1) = true) (it1 it2 : H5)
@@ -457,6 +464,85 @@ theorem save_twice_keeps_first (k : Kind) (fs : FS) (t : Target) (ht : t.isPath 
   obtain ⟨a, _, c⟩ := second_save_refused k (FS.put (cleared fs t false) t (.h5 tree)) t ht tree
     (lookup_put_self _ t _) o2 k0 v2 r2 hd2 it2 hi2 hna2 hl
   exact ⟨a, c⟩
+
+/-! ### an existing HDF5 *path* handed over as `pathlib.Path` / `os.PathLike` / `bytes` -/
+
+/-- route 2 of the guard: the path is not a `str`, so `isinstance(fhandle, str)` lets it pass and
+    `File(path, 'a')` opens the existing file.  Contract of h5py's append mode: creating a member
+    whose name is taken is refused and nothing is written (`writeInto_collision`).  The first key
+    of the new dictionary is such a member (always so for an object of the kind the file holds),
+    hence: the save fails, the file holds exactly what it held, every other file is untouched and
+    every load of every kind from every target returns what it returned before. -/
+theorem no_overwrite_guard_pathlike (k : Kind) (fs : FS) (t : Target) (hp : t.isPath = true)
+    (hs : t.asStr = false) (g : H5) (hg : FS.lookup fs t = some (.h5 g)) (o : Val) (k0 : String)
+    (v0 r : Val) (hd : toDict k o = .ok (.dcons k0 v0 r)) (it : H5)
+    (hi : encodeItem .utf8 v0 = .ok it) (hna : it.isAttr = false) (hl : g.hasLink k0 = true) :
+    (save .utf8 k fs t .hdf5 false o).2.1 = some .nameExists ∧
+    (∀ t', FS.lookup (save .utf8 k fs t .hdf5 false o).1 t' = FS.lookup fs t') ∧
+    ∀ k' t' ft, load k' (save .utf8 k fs t .hdf5 false o).1 t' ft = load k' fs t' ft := by
+  have ht : t.isStr = false := by simp [Target.isStr, hs]
+  have hw : writeDict .utf8 fs t .hdf5 false (.dcons k0 v0 r) =
+      (FS.put fs t (.h5 g), some .nameExists) := by
+    simp [writeDict, writeDictWith, hg, ht, writeInto_collision (encodeItem .utf8) g k0 v0 r it hi hna hl]
+  have hfs : (save .utf8 k fs t .hdf5 false o).1 = FS.put fs t (.h5 g) := by simp [save, hd, hw]
+  have hlk : ∀ t', FS.lookup (FS.put fs t (.h5 g)) t' = FS.lookup fs t' :=
+    fun t' => lookup_put_same fs t t' _ hg
+  refine ⟨by simp [save, hd, hw], fun t' => by rw [hfs]; exact hlk t', fun k' t' ft => ?_⟩
+  rw [hfs]
+  simp only [load, readDict, hlk t']
+
+/-- **both routes.**  A file saved to a fresh path (handed over either way), then a second object
+    of the same kind saved to the *same file* without `overwrite` — the path again handed over
+    either way, `str` then `Path`, `Path` then `str`, …: the second save fails (`fileExists` from
+    the guard for a `str`, `nameExists` from h5py otherwise) and every load returns what it
+    returned before.  An existing file is never replaced unless overwrite is requested. -/
+theorem existing_path_never_replaced (k : Kind) (fs : FS) (t t2 : Target) (hp : t.isPath = true)
+    (hid : t2.id = t.id) (hp2 : t2.isPath = t.isPath)
+    (hf : FS.lookup fs t = none) (o1 o2 : Val) (k0 : String) (v1 r1 v2 r2 : Val)
+    (hd1 : toDict k o1 = .ok (.dcons k0 v1 r1)) (hd2 : toDict k o2 = .ok (.dcons k0 v2 r2))
+    (hst : storable .utf8 (.dcons k0 v1 r1) = true) (it1 it2 : H5)
+    (hi1 : encodeItem .utf8 v1 = .ok it1) (hna1 : it1.isAttr = false)
+    (hi2 : encodeItem .utf8 v2 = .ok it2) (hna2 : it2.isAttr = false) :
+    (save .utf8 k fs t .hdf5 false o1).2.1 = none ∧
+    (save .utf8 k (save .utf8 k fs t .hdf5 false o1).1 t2 .hdf5 false o2).2.1 =
+      some (if t2.asStr then .fileExists else .nameExists) ∧
+    ∀ k' t' ft, load k' (save .utf8 k (save .utf8 k fs t .hdf5 false o1).1 t2 .hdf5 false o2).1 t' ft =
+      load k' (save .utf8 k fs t .hdf5 false o1).1 t' ft := by
+  obtain ⟨tree, _, e1, _, _⟩ := dict_roundtrip .utf8 _ hst
+  have hw := writeDict_hdf5_fresh .utf8 fs t false _ tree (Or.inr hf) e1
+  have hfs : (save .utf8 k fs t .hdf5 false o1).1 = FS.put (cleared fs t false) t (.h5 tree) := by
+    simp [save, hd1, hw]
+  have herr : (save .utf8 k fs t .hdf5 false o1).2.1 = none := by simp [save, hd1, hw]
+  have hl := hasLink_encode_head .utf8 k0 v1 r1 tree it1 hi1 hna1 e1
+  have hlk2 : FS.lookup (FS.put (cleared fs t false) t (.h5 tree)) t2 = some (.h5 tree) := by
+    rw [lookup_congr _ t2 t hid hp2]; exact lookup_put_self _ t _
+  refine ⟨herr, ?_⟩
+  rw [hfs]
+  cases hs : t2.asStr with
+  | true =>
+    obtain ⟨a, _, c⟩ := no_overwrite_guard .utf8 k (FS.put (cleared fs t false) t (.h5 tree)) t2 o2 _
+      (hp2.trans hp) hs hlk2
+    exact ⟨by simpa using c _ hd2, fun k' t' ft => by rw [a]⟩
+  | false =>
+    obtain ⟨a, _, c⟩ := no_overwrite_guard_pathlike k (FS.put (cleared fs t false) t (.h5 tree)) t2
+      (hp2.trans hp) hs tree hlk2 o2 k0 v2 r2 hd2 it2 hi2 hna2 hl
+    exact ⟨by simpa using a, c⟩
+
+/-- a path that is no `str` is a path all the same for pickle (`open(…, 'wb')` truncates): fresh or
+    existing, with or without the flag, the file afterwards holds exactly the new dictionary
+    (repaired behaviour; the pinned tree raises `TypeError`, finding "pathlike-target") -/
+theorem pkl_path_exact (k : Kind) (fs : FS) (t : Target) (hp : t.isPath = true) (ov : Bool)
+    (o d : Val) (hd : toDict k o = .ok d) :
+    (save .utf8 k fs t .pkl ov o).2.1 = none ∧
+    FS.lookup (save .utf8 k fs t .pkl ov o).1 t = some (.pkl [dictAfter .pkl d]) := by
+  have hw := writeDict_pkl_fresh .utf8 fs t ov d (Or.inl hp)
+  exact ⟨by simp [save, hd, hw], by simp [save, hd, hw, lookup_put_self]⟩
+
+/-- no auto-detection of the file type for a target that is no `str` (as coded:
+    `isinstance(filename, str)`), whatever its name -/
+theorem autodetect_str_only (k : Kind) (t : Target) (h : t.isStr = false) :
+    detectType k t none = .error .valueError := by
+  simp [detectType, h]
 
 /-- pickle: `pickle.dump` into a handle that already holds pickles writes behind the first one;
     the save succeeds and every load (which reads the first pickle) returns what it returned before -/
@@ -516,13 +602,13 @@ example : ∃ d, toDict .rdms exRdms = .ok d ∧ storable .utf8 d = true ∧ sto
   ⟨exRdms, by rfl, by decide +kernel, by decide +kernel⟩
 example : versionKey ∉ exRdms.keys := by decide +kernel
 example : Good .model (mkModel (.str "ModelFixed") (.str "m") exRdms) :=
-  IsModel.fixed "m" _ _ _ _ _ (arange .list 3) (by decide +kernel) (by rfl) (by decide +kernel)
+  IsModel.other "ModelFixed" "m" _ _ _ _ _ (Or.inl rfl) (by decide +kernel)
 example : Good .result (mkResult (.tens .nd [1, 1, 2] [.num .float (.fin 1), .num .float (.fin 2)])
     (.tens .scalar [] [.num .int (.fin 1)]) .none (.tens .nd [2] []) (.str "cosine") (.str "fixed")
     .none .none (.dcons "model_0" (mkModel (.str "ModelFixed") (.str "m") exRdms) .dnil)
     .none .none .none) :=
   ⟨_, _, _, _, _, _, _, _, _, _, _, _, rfl,
-    ModelsWF.cons _ _ _ (IsModel.fixed "m" _ _ _ _ _ (arange .list 3) (by decide +kernel) (by rfl) (by decide +kernel))
+    ModelsWF.cons _ _ _ (IsModel.other "ModelFixed" "m" _ _ _ _ _ (Or.inl rfl) (by decide +kernel))
       ModelsWF.nil, ⟨by decide +kernel, trivial⟩, by decide +kernel⟩
 -- a group listed alphabetically (`model_10` before `model_2`) is read in numeric order
 example :
@@ -547,6 +633,23 @@ example : keysFrom indexKey 0 (.dcons (indexKey 0) (natVal 1) (.dcons (indexKey 
 example : ∃ k0 v1 r1 it1, toDict .rdms exRdms = .ok (.dcons k0 v1 r1) ∧
     storable .utf8 (.dcons k0 v1 r1) = true ∧ encodeItem .utf8 v1 = .ok it1 ∧ it1.isAttr = false :=
   ⟨"dissimilarities", _, _, _, rfl, by decide +kernel, rfl, rfl⟩
+/-- a `pathlib.Path` target: a path, no `str`; the same file as the `str` target of that id -/
+def exPathT : Target := { isPath := true, id := 0, name := "x.h5", asStr := false }
+def exStrT : Target := { isPath := true, id := 0, name := "x.h5" }
+example : exPathT.isPath = true ∧ exPathT.asStr = false ∧ exPathT.isStr = false ∧
+    exPathT.id = exStrT.id ∧ exPathT.isPath = exStrT.isPath ∧ exStrT.isStr = true := by decide
+example : detectType .rdms exPathT none = .error .valueError := autodetect_str_only _ _ rfl
+-- `existing_path_never_replaced`, instantiated: saved through the `str`, saved again through the Path
+example : (save .utf8 .rdms [] exStrT .hdf5 false exRdms).2.1 = none ∧
+    (save .utf8 .rdms (save .utf8 .rdms [] exStrT .hdf5 false exRdms).1 exPathT .hdf5 false exRdms).2.1 =
+      some .nameExists ∧
+    (save .utf8 .rdms (save .utf8 .rdms [] exPathT .hdf5 false exRdms).1 exStrT .hdf5 false exRdms).2.1 =
+      some .fileExists := by
+  have h := existing_path_never_replaced .rdms [] exStrT exPathT rfl rfl rfl rfl exRdms exRdms
+    "dissimilarities" _ _ _ _ rfl rfl (by decide +kernel) _ _ rfl rfl rfl rfl
+  have h' := existing_path_never_replaced .rdms [] exPathT exStrT rfl rfl rfl rfl exRdms exRdms
+    "dissimilarities" _ _ _ _ rfl rfl (by decide +kernel) _ _ rfl rfl rfl rfl
+  exact ⟨h.1, h.2.1, h'.2.1⟩
 example : detectType .rdms { isPath := true, id := 0, name := "a.tar.hdf5" } none = .ok .hdf5 ∧
     detectType .dataset { isPath := true, id := 0, name := "x.h5.pkl" } none = .ok .pkl ∧
     detectType .result { isPath := true, id := 0, name := "x.H5" } none = .error .valueError := by
